@@ -23,6 +23,10 @@ from rules import caps
 LEVEL = "other"
 
 FNS = {"bisection": "roots::bisection", "brent": "roots::brent", "itp": "roots::itp"}
+# role names of the instance table (confirmed by reading the pinned tree)
+ROLES = {"bisection": {"left", "right", "middle", "f_a"},
+         "brent": {"left", "right", "c", "s", "f_left", "f_right", "f_c", "f_s", "mflag"},
+         "itp": {"left", "right", "f_left", "f_right", "x_half", "x_f", "x_t", "x_itp", "f_itp", "r", "delta", "sigma"}}
 
 
 def S(n):
@@ -891,12 +895,22 @@ def run(F, run, tier):
             run.broken("R7.1", path, "loop", F.loc(b), "no main loop found")
             continue
         guards.check_preconditions(F, run, "R7.1", b, path, reqs_for(name), allow_early_ok=(name == "bisection"), floor=2)
+        if name == "bisection":
+            check_counter_loop(F, run, b, loop)
+        # The remaining rules name roles (which local is the left end, which caches f there, …) by the instance table confirmed on the pinned tree
+        # (locals renamed by a refactoring get these names back through refs/locals.json).  When the roles are not all present the function has
+        # been restructured beyond that table: say exactly that, once, instead of judging a different program by the old roles.
+        have = set(all_binds(b))
+        missing = sorted(ROLES[name] - have)
+        if missing:
+            run.broken("R7.2", path, "roles", F.loc(b), "the locals %s of the instance table (bracket ends, cached function values, trial points) are not present: the "
+                       "bracketing rules R7.2–R7.4, R7.8–R7.11 cannot be applied to this shape of the solver and the instance table needs re-confirming" % missing)
+            continue
         check_success_criterion(F, run, name, b)
         check_cached_values(F, run, name, b, loop)
         check_sign_reachability(F, run, name, b, loop)
         if name == "bisection":
             check_hull(F, run, b, loop)
-            check_counter_loop(F, run, b, loop)
         else:
             check_hull_brent_itp(F, run, name, b, loop)
         if name == "itp":
